@@ -14,6 +14,9 @@
 //     (see EMPTY_LIST_MEANS_ALL);
 //   * features: Tagged (cut like the reference, on a second array with other extents), Untagged (whole array),
 //     Indexed with first extent N and N-1 (slice i along axis 0; raises when the feature has fewer slices).
+// File layout: one scratch file per positions-array layout, one block per table size N holding its own copy of the
+// arrays, the multi-tag and its positions / extents / indexed-feature arrays (keeps every HDF5 group small, see main).
+// Signatures: dagrid.hpp (make_sig) for single retrievals; check_list below for index lists.
 #include "dagrid.hpp"
 
 using namespace nix;
